@@ -47,6 +47,10 @@ class World:
     def _region(self, o, nd=None):
         lo = [self.emb.x(frac(c)) for c in o["lo"]]
         hi = [self.emb.x(frac(c)) for c in o["hi"]]
+        if self.emb.dyadic and all(float(v).is_integer() and abs(v) < 2**40 for v in lo + hi) and int(sum(lo) + 2 * sum(hi)) % 2 == 1:
+            # integer-typed corners (Region keeps an int64 pmin / pmax): the numeric type of the corners must not matter
+            # (seeded change C12-13 cast the reference point of a quarter turn to the dtype of the corners)
+            lo, hi = [int(v) for v in lo], [int(v) for v in hi]
         return self.df.Region(p1=lo, p2=hi, dims=DIMS[: len(lo)], units=list(o["units"]))
 
     def _get(self, heap, oid):
@@ -65,6 +69,7 @@ class World:
             subs = {SUBNAMES[j]: self._region(heap[s]) for j, s in enumerate(o["sub"])}
             m = self.df.Mesh(region=reg, n=tuple(o["n"]), subregions=subs)
             self.obj[oid] = m
+            fld.disown(subs)   # the input Region objects remain the caller's: moving them must not move the mesh's
             for j, s in enumerate(o["sub"]):
                 self.obj[s] = m.subregions[SUBNAMES[j]]
         else:
@@ -80,7 +85,7 @@ class World:
                     # a mapping is a dictionary: the order in which its keys are written must not matter
                     # (seeded change C12-1 looked components up by position in vdim_mapping.values())
                     mapping = dict(reversed(list(mapping.items())))
-            self.obj[oid] = self.df.Field(mesh, nvdim=nv, value=arr, valid=valid, vdims=vd, vdim_mapping=mapping)
+            self.obj[oid] = fld.labelled_field(self.df, mesh, nv, arr, vd, mapping, sum(o["shape"]) + sum(o["map"]) + oid, valid=valid)
         return self.obj[oid]
 
 
@@ -124,6 +129,8 @@ def call(df, emb, obj, st):
             return obj.rotate90(dims[0], "nope", inplace=ip)
         if bad == "float-k":
             return obj.rotate90(dims[0], dims[1], k=1.5, inplace=ip)
+        if bad == "rot-ref-complex":
+            return obj.rotate90(dims[0], dims[1], reference_point=(1j,) + (0.0,) * (nd - 1), inplace=ip)
         if isfield:
             raise NotApplicable()
         if bad == "vector-too-long":
@@ -132,6 +139,12 @@ def call(df, emb, obj, st):
             return obj.translate(("a",) * nd, inplace=ip)
         if bad == "factor-too-long":
             return obj.scale((2.0,) * (nd + 1), inplace=ip)
+        if bad == "vector-complex":
+            return obj.translate((1.0 + 2.0j,) + (0.0,) * (nd - 1), inplace=ip)
+        if bad == "factor-complex":
+            return obj.scale((2.0j,) + (1.0,) * (nd - 1), inplace=ip)
+        if bad == "ref-complex":
+            return obj.scale(2.0, reference_point=(1j,) + (0.0,) * (nd - 1), inplace=ip)
         if bad == "factor-string":
             return obj.scale("2", inplace=ip)
         if bad == "ref-too-long":
